@@ -16,6 +16,7 @@
 #   limitations under the License.
 #
 import logging
+from queue import Empty
 from multiprocessing import Process, Queue, Pipe
 from multiprocessing.connection import Connection
 from typing import Any, Dict, Iterable, List, Optional, Tuple, Union, cast
@@ -24,6 +25,7 @@ import pysmt
 from pysmt.solvers.solver import IncrementalTrackingSolver, SolverOptions, Solver, Model
 from pysmt.decorators import clear_pending_pop
 from pysmt.logics import convert_logic_from_string, Logic
+from pysmt.exceptions import SolverReturnedUnknownResultError
 from pysmt.fnode import FNode
 from pysmt.utils import assert_not_none
 
@@ -157,7 +159,20 @@ class Portfolio(IncrementalTrackingSolver):
             _debug("Started instance of %s", sname)
 
         while True:
-            (sname, res) = signaling_queue.get(block=True)
+            try:
+                (sname, res) = signaling_queue.get(block=True, timeout=0.1)
+            except Empty:
+                if any(p.is_alive() for p in processes):
+                    continue
+                # All the solvers terminated. Whatever they wrote has
+                # already been flushed into the queue: we look one
+                # last time, then give up instead of waiting forever.
+                try:
+                    (sname, res) = signaling_queue.get(block=False)
+                except Empty:
+                    raise SolverReturnedUnknownResultError(
+                        "All the solvers of the Portfolio terminated "
+                        "without providing a result")
             if isinstance(res, BaseException):
                 if cast(PortfolioOptions, self.options).exit_on_exception:
                     # Close all solvers and raise exception
